@@ -70,3 +70,43 @@ Proof.
   split; [apply lafter_reach, runL_yielded_ok|]. vm_compute. repeat split; auto.
   eexists. split; [reflexivity|]. split; lia.
 Qed.
+
+(* ---- the two schedules that starved / delayed a coroutine before fix e723520, on the loop as it is ---- *)
+(* starvation schedule: coroutine 1 keeps yielding on the only worker, coroutine 2 waits in its global queue.  After 64 runs
+   (budget 256 -> 192) run_queued_tasks calls collect_global, coroutine 2 goes to the local queue behind coroutine 1 and runs *)
+Definition yield_once : list laction := [LBase (AYield 0); LBase (KLocal 0); LBase (KSubscribed 0); LCoRet 0].
+Definition run_starve_fixed : list laction :=
+  run_starve ++ rep 63 cycle ++ yield_once ++ [LBulkGrab 0; LBulkEnd 0; LPut 0; LBulkEnd 0; LPop 0; LResume 0]
+  ++ yield_once ++ [LPop 0; LResume 0].
+Lemma run_starve_fixed_ok : lruns P10 (linit 1) run_starve_fixed <> None.
+Proof. vm_compute. discriminate. Qed.
+Lemma starve_fixed_state : let l := lafter P10 1 run_starve_fixed in
+  LReach P10 1 l /\ stk (base l) 0 = [FRun 2] /\ lq (base l) 0 = [1] /\ gq (base l) 0 = [] /\ ngrab l 2 = 1 /\ ntake l 2 = 1 /\
+  npop l 0 = 66 /\ bud l 0 = 191 /\ ncoll l 0 = 2.
+Proof. split; [apply lafter_reach, run_starve_fixed_ok | vm_compute; repeat split; reflexivity]. Qed.
+(* the old cycle is no longer a run: the 64th return of run_coroutine goes to collect_global, not to local.pop *)
+Lemma starve_cycle_breaks : lruns P10 (linit 1) (run_starve ++ rep 64 cycle) = None.
+Proof. vm_compute. reflexivity. Qed.
+
+(* I/O timer schedule: the timeout handler resumes coroutine 1 after run_queued_tasks, it yields into the local queue; select
+   returns Some(0) instead of the 10 s to the next I/O timer, the next epoll_wait only polls, the coroutine runs at once *)
+Definition run_timer_fixed : list laction :=
+  [LPoll 0 false; LBase (ASpawn 1 1 None false); LBase (AStep 1); LBase (AStep 1); LBase (AStep 1);
+   LWake 0 false; LEvRead 0; LBulkGrab 0; LBulkEnd 0; LPut 0; LBulkEnd 0; LEvDone 0; LPop 0; LResume 0;
+   LBase (AYield 0); LBase (KStore 0); LBase (KSkip 0); LBase (KSubscribed 0); LCoRet 0;
+   LPop 0; LBulkEnd 0; LHas 0; LStOut 0;
+   LTmTake 0 1; LResume 0;
+   LBase (AYield 0); LBase (KLocal 0); LBase (KSubscribed 0); LCoRet 0;
+   LTmDone 0 (Some 10000000000%N); LPoll 0 false; LEvDone 0; LPop 0; LResume 0].
+Lemma run_timer_fixed_ok : lruns P10 (linit 1) run_timer_fixed <> None.
+Proof. vm_compute. discriminate. Qed.
+Lemma timer_fixed_state : let l := lafter P10 1 run_timer_fixed in
+  LReach P10 1 l /\ stk (base l) 0 = [FRun 1] /\ now l = 0%N /\ tmo l 0 = Some 0%N /\ wpc l 0 = PCo RRun.
+Proof. split; [apply lafter_reach, run_timer_fixed_ok | vm_compute; repeat split; reflexivity]. Qed.
+
+Lemma cur_constants t : budgeted (Pcur t) = true /\ work_steal (Pcur t) = true /\ push_first (Pcur t) = true /\
+  1 <= interval (Pcur t) < budget (Pcur t) /\ MayV.Rt.SchedLoopSleep.coll_ok (Pcur t).
+Proof.
+  assert (A : 1 <= interval (Pcur t) < budget (Pcur t)) by (cbn; split; [apply Nat.leb_le | apply Nat.ltb_lt]; reflexivity).
+  repeat split; try reflexivity; try apply A. right. exact A.
+Qed.
